@@ -346,7 +346,7 @@ def run_pipeline(repo="/repo", workdir=None, keep=False, seed=0, extra_verus=(),
     if own:
         os.makedirs(os.path.join(VERIF, ".work"), exist_ok=True)
         workdir = tempfile.mkdtemp(prefix="run-", dir=os.path.join(VERIF, ".work"))
-    res = {"undecided": None, "failures": {}, "structural": [], "runs": {}, "demoted": list(demote)}
+    res = {"undecided": None, "failures": {}, "structural": [], "runs": {}, "demoted": list(demote), "repo": repo}
     try:
         env = dict(os.environ)
         gen = os.path.join(workdir, "gen")
@@ -587,6 +587,16 @@ def advisories(res, verif=None):
         if ent and ent["tokhash"] != u["tokhash"] and ent["props"]:
             out.append({"kind": "unverified-function-changed", "props": set(ent["props"]),
                         "reason": "%s (%s) is outside what the verifier covers (not extracted) and differs from the pinned text: nothing is known about the change" % (u["key"], u["file"])})
+    # the dependency model is written for hashbrown 0.14.5: another locked version makes every assumption about it void
+    repo_ = res.get("repo") or "/repo"
+    try:
+        lock = open(os.path.join(repo_, "Cargo.lock")).read()
+        m_ = re.search(r'name = "hashbrown"\nversion = "([^"]+)"', lock)
+        if m_ and m_.group(1) != "0.14.5":
+            out.append({"kind": "dependency-version", "props": set("C%02d" % i for i in range(1, 18)),
+                        "reason": "Cargo.lock pins hashbrown %s; model/hashbrown_0_14_5.rs describes 0.14.5" % m_.group(1)})
+    except OSError:
+        pass
     un = meta.get("unspecified_iterator_methods", [])
     if un:
         out.append({"kind": "iterator-method-without-contract", "props": {"C08", "C13", "C14"},
